@@ -44,11 +44,35 @@ CHECKS = {
     },
 }
 
+CHECKS["C06"] = {
+    "technique": "runtime monitoring: slot-invariant hook that walks every live memory block at every statement boundary (variant tag vs declared type, value range), plus reference prediction of stored value or Overflow for every generated statement; repeated on the plain release build",
+    "text": "Exhaustive over the boundary set of each numeric type x each target type x every route into a variable (assignment, by-value and by-ref parameter, SHARED variable in a SUB, FOR initial value/limit/increment, READ, INPUT from console and file, function result, array element, record field, CONST with suffix) and every arithmetic operator on all boundary pairs; random in-range values. The monitor observed every scalar slot (variables, array elements, record fields, parameters, counters) at every statement boundary of every run.",
+    "note": "Rounding ties and values not exactly representable in their type are discarded; the numeric workload is also run on the plain release profile (overflow checks off) because the verdict can flip between profiles.",
+    "design": "DESIGN.md section 2 C06",
+}
 CHECKS["C09"] = {
     "technique": "runtime monitoring, metamorphic: original and layout-transformed program parsed, linted and run by the real code; parse trees (positions erased), checker verdicts and run-time behaviour compared",
     "text": "Every BASIC text embedded in the repository (accepted and rejected) and generated programs are transformed by keyword case, identifier case (consistent and inconsistent), blank/tab resizing, blank lines, trailing comments, LF/CRLF/CR/mixed line endings and newline<->colon between simple statements, each alone and all at once; any change of tree, verdict (accept | parse error | lint error kind) or behaviour (stdout, lpt1, outcome code) is a violation.",
     "note": "Which syntax error a rejected text gets is compared as a class only; the tree is not compared for the comment transform; one known finding (KF-C09-1) is pinned.",
     "design": "DESIGN.md section 2 C09",
+}
+CHECKS["C02"] = {
+    "technique": "runtime monitoring, metamorphic: a program and its rewrite by an equivalence rule are run by the real code and their output, outcome code and generated-code structure compared (implementation against itself)",
+    "text": "Generated core-language programs are rewritten on the AST by each rule of the property (FOR -> WHILE with explicit counter/limit/step temporaries, WHILE -> DO WHILE, DO UNTIL c -> DO WHILE NOT c, SELECT CASE -> IF/ELSEIF chain, single-line IF -> block IF, FOR -> STEP 1, loop body wrapped in IF -1 THEN ... END IF) at single sites and at all sites together, for positive, negative and run-time computed steps; every repository program gets conservative text-level rewrites (WHILE..WEND -> DO WHILE..LOOP, FOR -> STEP 1).",
+    "note": "A site is rewritten only when provably applicable (literal CASE expressions, literal or freshly assigned non-zero steps); skipped sites are counted. Outcomes are compared as ok | error code because rows move.",
+    "design": "DESIGN.md section 2 C02",
+}
+CHECKS["C14"] = {
+    "technique": "runtime monitoring, metamorphic between the implementation's two evaluators: CONST form vs inlined expression run by the real code, compared on output, outcome and the run-time variant tag observed at the print hook; rejection verdicts compared with the run-time outcome of the expression",
+    "text": "3e4 (quick) / 5e5 (thorough) constant expressions over literals at the type boundaries, zero divisors and earlier constants, all operators, depth <= 4, declared globally, used inside a SUB or declared inside a SUB, bare and with every suffix. Accepted: same stdout, outcome and run-time type as the inlined parenthesised expression (converted through a variable of the suffix type). Rejected with Overflow / DivisionByZero: the expression must raise exactly that error at run time.",
+    "note": "Rejections with other errors (the folder cannot AND/OR non-INTEGER constants and reports TypeMismatch) are counted and listed in the evidence but not judged, because the property's iff-clause names only overflow and division by zero.",
+    "design": "DESIGN.md section 2 C14",
+}
+CHECKS["C16"] = {
+    "technique": "runtime monitoring: bytes captured on stdout, the printer device and the written files compared with a shadow column model (one column counter per device) over random interleaved PRINT histories and exhaustive boundary sets",
+    "text": "Histories of PRINT/LPRINT/PRINT # statements interleaved over screen, LPT1 and two files (numbers of all five types and signs, strings with embedded CR/LF, separators in every position), the exhaustive column-boundary set (start column 0..30 x width 0..16 x separator x device) and PRINT USING with all format strings up to length 4 (quick) / 5 (thorough) over {# , . \\ space ! a} plus random longer ones.",
+    "note": "An embedded CR/LF may be written raw or as CR LF; PRINT USING cases outside the model (number wider than the field, commas outside thousands positions, rounding ties) are discarded and counted; LPRINT is observed on the harness's in-memory printer.",
+    "design": "DESIGN.md section 2 C16",
 }
 CHECKS["C19"] = {
     "engine": "bitmon",
